@@ -28,6 +28,8 @@ def run(ctx):
     for k in range(n):
         rng = ctx.rng
         cfg = conn_check.gen_cfg(rng)
+        cfg['control'] = rng.random() < 0.4      # holder of a CONTROL connection (run() treats it differently)
+        ctx.count('owner', 'control-connection' if cfg['control'] else 'pool')
         h = conn_impl.Harness(**cfg)
         acts = []
         rounds = rng.randint(1, 5)
@@ -82,7 +84,8 @@ def run(ctx):
                                       theorem='C44_capacity_preserved_instances')
                 else:
                     if not c.is_defunct or not notified:
-                        ctx.violation('failed-heartbeat-not-defunct', 'heartbeat reply=%s: defunct=%s owner notified=%s' % (reply, c.is_defunct, bool(notified)),
+                        ctx.violation('failed-heartbeat-not-defunct' + ('.control-connection' if cfg['control'] else ''),
+                                      'heartbeat reply=%s on a %s connection: defunct=%s owner notified=%s' % (reply, 'CONTROL' if cfg['control'] else 'pool', c.is_defunct, bool(notified)),
                                       case=case, theorem='C44_failed_defunct')
         hs.append(('hb', cfg, acts, h))
         ctx.case([cfg, acts], nontrivial=rounds >= 2, sample={'cfg': cfg, 'actions': acts[:8], 'model_ops': conn_corr.all_ops(h)[:16]})
@@ -99,7 +102,12 @@ def replay(ctx, rp):
         print('nothing to replay: %s' % rp.get('theorem'))
         return 1
     h = conn_corr.run_history(case['cfg'], case['actions'])
-    for ops, sn in h.points:
+    for ops, sn in h.points[-8:]:
         print(ops, {k: v for k, v in sn.items() if k != 'events'})
-    print('see the last round above; key=%s' % rp.get('key'))
-    return 1
+    key = rp.get('key') or ''
+    c = h.conn
+    bad = (key.startswith('failed-heartbeat') and not c.is_defunct) or (key == 'capacity-changed') or (key.startswith('busy') or key.startswith('idle') or key.startswith('dead'))
+    if key.startswith('failed-heartbeat'):
+        print('after the failed heartbeat round: defunct=%s control=%s' % (c.is_defunct, c.is_control_connection))
+    print(('VIOLATION property=C44 replay=%s' % ctx.replay_path) if bad else 'not reproduced')
+    return 1 if bad else 0
